@@ -122,6 +122,43 @@ def compare_ort(before: onnx.ModelProto, after: onnx.ModelProto, feeds_list, ran
     return {"status": "equal"}
 
 
+def annotations_hold(model: onnx.ModelProto, feeds: dict[str, np.ndarray]) -> Optional[bool]:
+    """Does this feed respect the model's OWN annotations (hypothesis AnnotSound / C08 of the input
+    graph)?  Every annotated value of the top graph is observed in onnxruntime; literal extents must
+    be met and every symbol must stand for one number. None: the model does not run on this feed.
+    (Example: Reshape(t, Shape(x)) with an empty x — a 0 in a run-time shape tensor means 'copy the
+    extent of the input' under allowzero=0, so the inferred annotation is false for that feed.)"""
+    m = onnx.ModelProto()
+    m.CopyFrom(model)
+    have = {o.name for o in m.graph.output}
+    produced = {o for n in m.graph.node for o in n.output if o}
+    anns = {vi.name: vi for vi in list(m.graph.value_info) + list(m.graph.output) + list(m.graph.input)}
+    extra = [vi for vi in m.graph.value_info if vi.name in produced and vi.name not in have]
+    m.graph.output.extend(extra)
+    try:
+        outs = ort_outputs(m, feeds)
+    except Exception:  # noqa: BLE001
+        return None
+    sym: dict[str, int] = {}
+    obs = {o.name: np.asarray(a).shape for o, a in zip(m.graph.output, outs)}
+    obs.update({k: np.asarray(v).shape for k, v in feeds.items()})
+    for name, shp in obs.items():
+        vi = anns.get(name)
+        if vi is None or not vi.type.tensor_type.HasField("shape"):
+            continue
+        dims = list(vi.type.tensor_type.shape.dim)
+        if len(dims) != len(shp):
+            return False
+        for d, n in zip(dims, shp):
+            if d.HasField("dim_value"):
+                if int(d.dim_value) != int(n):
+                    return False
+            elif d.dim_param:
+                if sym.setdefault(d.dim_param, int(n)) != int(n):
+                    return False
+    return True
+
+
 def declared_output_mismatch(before: onnx.ModelProto, after: onnx.ModelProto, feeds) -> Optional[str]:
     """The optimized model must still DECLARE for its outputs (and, under strict shape inference, for
     its intermediates) what it produces: a stale annotation left by a rewrite is a changed model
@@ -180,6 +217,7 @@ def run(chk: Check) -> None:
     guard_count: dict[str, int] = {}
     pass_change: dict[str, int] = {}
     invalid_generated = 0
+    feeds_dropped = 0
     t0 = time.time()
     for ci, (model, desc) in enumerate(cases):
         fam_count[desc["family"]] = fam_count.get(desc["family"], 0) + 1
@@ -193,6 +231,14 @@ def run(chk: Check) -> None:
             onnx.checker.check_model(model)
             ort_outputs(model, feeds_list[0])
         except Exception:
+            invalid_generated += 1
+            continue
+        # feeds under which the generated graph contradicts its own annotations are outside the
+        # property (the optimizer may rely on the annotations of a valid model)
+        kept = [f for f in feeds_list if annotations_hold(model, f) is not False]
+        feeds_dropped += len(feeds_list) - len(kept)
+        feeds_list = kept
+        if not feeds_list:
             invalid_generated += 1
             continue
         snaps, final = run_passes_with_snapshots(model)
@@ -297,6 +343,7 @@ def run(chk: Check) -> None:
                        "rejected_but_equal_in_ORT(by pass)": uncertified_by_pass})
     chk.info("rejected_but_equal_samples", rejected_samples)
     chk.info("invalid_generated_graphs_skipped", invalid_generated)
+    chk.info("feeds_dropped_because_they_contradict_the_input_graphs_annotations", feeds_dropped)
     chk.info("generation_s", round(gen_s, 1))
     chk.add("traces_validated_against_impl", len(requests))
     if not proved:
